@@ -16,6 +16,9 @@ pub struct Case {
     pub ccr: u8,
     /// memory bytes set before the step (operands, frames, vectors, bus-controller registers)
     pub patches: Vec<(u32, u8)>,
+    /// interrupt requests sitting in the controller's queue while the instruction executes
+    /// (an instruction step must neither consume nor reorder them)
+    pub pending: Vec<u8>,
 }
 
 impl Case {
@@ -25,7 +28,7 @@ impl Case {
             code.push((w >> 8) as u8);
             code.push(*w as u8);
         }
-        Case { pc, code, er: [0; 8], ccr: 0, patches: vec![] }
+        Case { pc, code, er: [0; 8], ccr: 0, patches: vec![], pending: vec![] }
     }
     pub fn patch16(&mut self, a: u32, v: u16) {
         self.patches.push((a, (v >> 8) as u8));
@@ -48,7 +51,8 @@ impl Case {
         let code: String = self.code.iter().map(|b| format!("{:02x}", b)).collect();
         let er: Vec<String> = self.er.iter().map(|r| format!("{:08x}", r)).collect();
         let p: Vec<String> = self.patches.iter().map(|(a, v)| format!("{:06x}:{:02x}", a, v)).collect();
-        format!("pc={:06x} code={} er={} ccr={:02x} patches={}", self.pc, code, er.join(","), self.ccr, if p.is_empty() { "-".to_string() } else { p.join(",") })
+        let q: Vec<String> = self.pending.iter().map(|v| v.to_string()).collect();
+        format!("pc={:06x} code={} er={} ccr={:02x} patches={}{}", self.pc, code, er.join(","), self.ccr, if p.is_empty() { "-".to_string() } else { p.join(",") }, if q.is_empty() { String::new() } else { format!(" pend={}", q.join(",")) })
     }
     pub fn from_line(s: &str) -> Option<Case> {
         let mut c = Case::default();
@@ -65,6 +69,7 @@ impl Case {
                     }
                 }
                 "ccr" => c.ccr = u8::from_str_radix(v, 16).ok()?,
+                "pend" => c.pending = v.split(',').filter_map(|x| x.parse().ok()).collect(),
                 "patches" => {
                     if v != "-" {
                         for p in v.split(',') {
@@ -98,6 +103,8 @@ pub enum Diff {
     Pc { real: u32, model: u32 },
     Mem { addr: u32, real: u8, model: u8 },
     Cost { real: u32, model: u32 },
+    /// the pending-request queue after an instruction step differs from before it
+    Queue { real: Vec<u8>, want: Vec<u8> },
 }
 
 impl Diff {
@@ -127,6 +134,7 @@ impl Diff {
                 _ => "mem.other".into(),
             },
             Diff::Cost { .. } => "cost".into(),
+            Diff::Queue { .. } => "pending-queue".into(),
         }
     }
 }
@@ -374,6 +382,12 @@ impl Lock {
         self.cpu.er = c.er;
         self.cpu.verif_set_ccr(c.ccr);
         self.cpu.verif_set_pc(c.pc);
+        self.cpu.verif_clear_pending();
+        if let Some(_) = c.pending.first() {
+            for v in &c.pending {
+                self.cpu.verif_request_interrupt(*v);
+            }
+        }
     }
 
     /// Execute one case on both machines and compare. The memories of both are returned to the
@@ -427,6 +441,8 @@ impl Lock {
             Action::Interrupt(v) => real_interrupt(&mut self.cpu, v),
         };
         let real_after = real_regs(&self.cpu);
+        let queue_after = if action == Action::Step { self.cpu.verif_pending() } else { c.pending.clone() };
+        self.cpu.verif_clear_pending();
 
         let mut diffs = vec![];
         let mut cost_model = None;
@@ -439,6 +455,9 @@ impl Lock {
         }
         match (&step.outcome, &real) {
             (Outcome::Ok(cyc), RealOutcome::Ok(states)) => {
+                if queue_after != c.pending {
+                    diffs.push(Diff::Queue { real: queue_after.clone(), want: c.pending.clone() });
+                }
                 for i in 0..8 {
                     if step.reg_unjudged & (1 << i) != 0 {
                         continue;
